@@ -58,3 +58,11 @@ Theorem hutch_exact_mean : forall (n bs : nat) (A : nat -> nat -> R) (probe : na
 Proof. intros n bs A probe Hd Hp m i Hi Hm. rewrite blocks_it. rewrite (hutch_exact_sums n bs 0%Z A probe Hd Hp eq_refl m i Hi).
   apply divn_spec. exact Hm. Qed.
 End MeanForm.
+
+(* the hypothesis on the division is satisfiable: the integers with floor division *)
+#[export] Instance ZRing17 : Base.Ring Z :=
+  {| Base.r0 := 0%Z; Base.r1 := 1%Z; Base.radd := Z.add; Base.rmul := Z.mul; Base.rsub := Z.sub; Base.ropp := Z.opp; Base.Rth := InitialRing.Zth |}.
+Lemma nmul_Z m x : nmul m x = (Z.of_nat m * x)%Z.
+Proof. unfold nmul. induction m; cbn [Base.sum]; [reflexivity|]. rewrite IHm. cbn [Base.radd ZRing17]. lia. Qed.
+Example divn_Z_ok : forall m x, 0 < m -> Z.div (nmul m x) (Z.of_nat m) = x.
+Proof. intros m x Hm. rewrite nmul_Z. rewrite Z.mul_comm. apply Z.div_mul. lia. Qed.
